@@ -4,7 +4,7 @@
 //! implicit numbering, variant enums, interfaces with bases / idempotent / tags / optionals / streams / return
 //! tuples, custom types, aliases, attributes with escaped string arguments incl. foreign-prefixed ones, nested
 //! type expressions), rendered to text in 7 LAYOUTS (canonical; optional commas omitted; all on one line; a
-//! token per line with tabs; ordinary comments between tokens; CRLF; backslash-escaped identifiers) and
+//! token per line with tabs; ordinary comments between tokens (also with multi-byte characters, `*` and `/` inside); CRLF; backslash-escaped identifiers) and
 //! compiled by the REAL compiler. A canonical dump of the AST (library API) must equal the dump of the model:
 //! every definition, member, modifier, tag, optionality, enumerator value, attribute and the full structure of
 //! every type expression, in source order and nothing else -- and no diagnostic.
@@ -143,7 +143,7 @@ fn layout(toks: &[Tok], which: usize) -> String {
                 let x = if which == 6 && matches!(tk, Tok::Id(_)) { format!("\\{x}") } else { x.clone() };
                 s.push_str(&x);
                 n += 1;
-                s.push_str(match which { 3 => "\n\t", 4 => if n % 3 == 0 { " /* c */ " } else if n % 7 == 0 { " // c\n" } else { " " }, _ => " " });
+                s.push_str(match which { 3 => "\n\t", 4 => if n % 6 == 0 { " /* größer 名前 * / */ " } else if n % 3 == 0 { " /* c */ " } else if n % 14 == 0 { " // 冪等 é // c\n" } else if n % 7 == 0 { " // c\n" } else { " " }, _ => " " });
             }
             Tok::OptComma => { if which != 1 { while s.ends_with(' ') { s.pop(); } s.push_str(", "); } }
             Tok::NL => s.push_str(match which { 2 => " ", 5 => "\r\n", _ => "\n" }),
